@@ -100,6 +100,7 @@ func runC16(p *core.Prog, r *core.Result) {
 		"R16.4 the rebuild-reason table lists exactly the keys under which the unpickler stores environment parts",
 		"R16.7 merging an adjacent delete/add pair into a replace: the two arguments of the element-wise diff are (part of) the deleted run and (part of) the added run in that order, and the surplus that is kept as an edit of its own carries the kind of the run it was cut from (left-over deleted elements stay a delete, left-over added elements stay an add)",
 		"R16.8 elements are reported as kept (common) only where they are equal as values: in the diagonal walk of the edit-graph search every advance of the two cursors is on the edge where starlark.EqualDepth/Equal of a.Index(x) and b.Index(y) reported equality (no representation-level shortcut such as comparing the bytes of a string with the bytes of a bytes value)",
+		"R16.9 the reason of one target is computed from that target's diff alone: nothing reachable from diffEnv writes into a package-level slice or map (an append to, a filter-in-place on, or an element store into the key table), so what one call reports cannot depend on the calls before it",
 		"R16.5 the diff is nil exactly on the equal edge; every other successful return is a non-nil node",
 	}
 	r.NotDecided = []string{"that kept+deleted / kept+added elements reconstruct the two sequences (the O(NP) search and snake recording are behavioural)", "merging of delete+add into replace for all length combinations"}
@@ -176,6 +177,9 @@ func runC16(p *core.Prog, r *core.Result) {
 
 	// ---- R16.4
 	checkReasonTable(p, r)
+
+	// ---- R16.9
+	checkReasonsNotShared(p, r, "R16.9")
 
 	// ---- R16.7
 	checkComposeMerge(p, r)
@@ -880,6 +884,123 @@ func checkMappingDiff(p *core.Prog, r *core.Result, diffMapping, DiffDepth *ssa.
 	}
 }
 
+// checkReasonsNotShared implements R16.9.
+func checkReasonsNotShared(p *core.Prog, r *core.Result, rule string) {
+	diffEnv := need(p, r, rule, "", "function", "diffEnv")
+	if diffEnv == nil {
+		return
+	}
+	// the storage a slice/map value may share: followed through phis, re-slicing, append's first operand and local cells
+	// only (not through the elements that are stored into it)
+	var backing func(v ssa.Value, seen map[ssa.Value]bool, visit func(ssa.Value))
+	backing = func(v ssa.Value, seen map[ssa.Value]bool, visit func(ssa.Value)) {
+		if v == nil || seen[v] {
+			return
+		}
+		seen[v] = true
+		visit(v)
+		switch x := v.(type) {
+		case *ssa.Phi:
+			for _, e := range x.Edges {
+				backing(e, seen, visit)
+			}
+		case *ssa.Slice:
+			backing(x.X, seen, visit)
+		case *ssa.ChangeType:
+			backing(x.X, seen, visit)
+		case *ssa.Call:
+			if b, ok := x.Call.Value.(*ssa.Builtin); ok && b.Name() == "append" {
+				backing(x.Call.Args[0], seen, visit)
+			}
+		case *ssa.UnOp:
+			if x.Op == token.MUL {
+				if al, ok := x.X.(*ssa.Alloc); ok {
+					for _, ref := range *al.Referrers() {
+						if st, ok := ref.(*ssa.Store); ok && st.Addr == ssa.Value(al) {
+							backing(st.Val, seen, visit)
+						}
+					}
+				}
+			}
+		}
+	}
+	fromGlobal := func(v ssa.Value) *ssa.Global {
+		var g *ssa.Global
+		backing(v, map[ssa.Value]bool{}, func(x ssa.Value) {
+			if ld, ok := x.(*ssa.UnOp); ok && ld.Op == token.MUL {
+				if gg, ok := ld.X.(*ssa.Global); ok && gg.Pkg != nil && gg.Pkg.Pkg.Path() == pkgRoot {
+					g = gg
+				}
+			}
+		})
+		return g
+	}
+	var fns []*ssa.Function
+	for f := range staticClosure(p, diffEnv) {
+		if f.Pkg == diffEnv.Pkg || f.Parent() != nil && f.Parent().Pkg == diffEnv.Pkg {
+			fns = append(fns, core.WithAnons(f)...)
+		}
+	}
+	sort.Slice(fns, func(i, j int) bool { return fns[i].String() < fns[j].String() })
+	seen := map[*ssa.Function]bool{}
+	n, k := 0, 0
+	for _, f := range fns {
+		if seen[f] {
+			continue
+		}
+		seen[f] = true
+		// what a parameter stands for at the call sites inside the closure (filterStrings(functionEnvKeys, …))
+		argGlobal := func(v ssa.Value) *ssa.Global {
+			if g := fromGlobal(v); g != nil {
+				return g
+			}
+			var g *ssa.Global
+			backing(v, map[ssa.Value]bool{}, func(x ssa.Value) {
+				prm, ok := x.(*ssa.Parameter)
+				if !ok {
+					return
+				}
+				i := paramIndex(prm.Parent(), prm)
+				for _, site := range p.StaticCallers(prm.Parent()) {
+					if i >= 0 && i < len(site.Common().Args) {
+						if gg := fromGlobal(site.Common().Args[i]); gg != nil {
+							g = gg
+						}
+					}
+				}
+			})
+			return g
+		}
+		core.Instrs(f, func(in ssa.Instruction) {
+			var subject ssa.Value
+			what := ""
+			switch x := in.(type) {
+			case *ssa.Call:
+				if b, ok := x.Call.Value.(*ssa.Builtin); ok && b.Name() == "append" {
+					subject, what = x.Call.Args[0], "append to"
+				}
+			case *ssa.Store:
+				if ia, ok := x.Addr.(*ssa.IndexAddr); ok {
+					if _, isSlice := ia.X.Type().Underlying().(*types.Slice); isSlice {
+						subject, what = ia.X, "element store into"
+					}
+				}
+			case *ssa.MapUpdate:
+				subject, what = x.Map, "update of"
+			}
+			if subject == nil {
+				return
+			}
+			n++
+			if g := argGlobal(subject); g != nil {
+				k++
+				r.Bad(rule, fmt.Sprintf("%s#writes-package-table-%d", fname(f), k), p.InstrPos(in), "%s a slice that shares its storage with the package-level variable %s: the first call rearranges the table the later calls read, so the reason reported for a target depends on which targets were reported before it (parts that differ are left out, others are named twice)", what, g.Name())
+			}
+		})
+	}
+	r.OK(rule, "dawn.(*function).diffEnv#writes-examined", p.Pos(diffEnv.Pos()), "%d append/element-store/map-update site(s) reachable from diffEnv in package dawn examined: none writes into package-level storage (violations are listed separately)", n)
+}
+
 func checkReasonTable(p *core.Prog, r *core.Result) {
 	tp := p.TPkg("")
 	if tp == nil {
@@ -910,8 +1031,12 @@ func checkReasonTable(p *core.Prog, r *core.Result) {
 				if !ok {
 					continue
 				}
-				nt, ok := sl.Elem().(*types.Named)
-				if !ok || nt.Obj().Name() != "String" || nt.Obj().Pkg().Path() != pkgStar {
+				// a table of starlark.String or of plain strings
+				if nt, ok := sl.Elem().(*types.Named); ok {
+					if nt.Obj().Name() != "String" || nt.Obj().Pkg() == nil || nt.Obj().Pkg().Path() != pkgStar {
+						continue
+					}
+				} else if bt, ok := sl.Elem().(*types.Basic); !ok || bt.Kind() != types.String {
 					continue
 				}
 				// is this table used by diffEnv? (role check below); collect constants
